@@ -14,6 +14,80 @@ from ..vsched import vtime
 MEM_SIZE = 160
 NMEM = 2
 TYPE_GENERIC = 0x18      # TYPE_APP: handled by the generic MemoryElement branch
+TYPE_DECK = 0x19         # TYPE_DECK_MEMORY: Memory creates a DeckMemoryManager for it
+
+# The deck memory (third memory of the deck scenarios) as the firmware lays it out: the info table at
+# 0, the command section at 0x1000 (0x20 bytes per deck), one window per deck far up in the address
+# space.  Only these segments exist; an access outside them is answered with an error status.
+DECK_MEM = 2                                   # memory id
+DECK_BASES = [0x10000000, 0x20000000, 0x30000000]
+DECK_SEGS = [(0, 257), (0x1000, 0x100), (DECK_BASES[0], 200), (DECK_BASES[1], 120)]
+DECK_NAMES = [b'bcAI', b'bcLoco', b'bcOff']
+DECK_EPI_W = (0, 184, 6)                       # (deck, offset, length): ranges kept free for the epilogue ...
+DECK_EPI_R = (1, 100, 9)
+DECK_RE_W = (0, 160, 12)                       # ... and for the request a completion callback starts
+DECK_RE_R = (1, 80, 7)
+
+# error status bytes: the firmware answers with an errno value, the library must treat every
+# non-zero byte alike (the property quantifies over all error statuses)
+STATUSES = [1, 2, 5, 12, 22, 41, 58, 127, 128, 133, 134, 200, 254, 255]
+
+
+class SegImage:
+    """Device memory made of a few segments; behaves like the bytearray MemoryService expects for
+    accesses inside one segment."""
+
+    def __init__(self, segs):
+        self.segs = [(b, bytearray(d)) for (b, d) in segs]
+
+    def __len__(self):
+        return max(b + len(d) for (b, d) in self.segs)
+
+    def seg(self, a, n):
+        for (b, d) in self.segs:
+            if b <= a and a + n <= b + len(d):
+                return (b, d)
+        return None
+
+    def __getitem__(self, sl):
+        a, e = sl.start, sl.stop
+        b, d = self.seg(a, e - a)
+        return d[a - b:e - b]
+
+    def __setitem__(self, sl, data):
+        a, e = sl.start, sl.stop
+        b, d = self.seg(a, e - a)
+        d[a - b:e - b] = data
+
+    def dense(self):
+        out = []
+        for (_b, d) in self.segs:
+            out.extend(d)
+        return out
+
+    def layout(self):
+        out, off = [], 0
+        for (b, d) in self.segs:
+            out.append({'base': b, 'len': len(d), 'off': off})
+            off += len(d)
+        return out
+
+
+def deck_image(rng):
+    """info table (version 3, 8 entries of 32 bytes): deck 0 and 1 valid+started+read+write, deck 2
+    valid but not started, the rest empty; everything else random"""
+    import struct
+    info = bytearray([3])
+    for i in range(8):
+        if i < 3:
+            f1 = 1 | (2 if i < 2 else 0) | 4 | 8 | (16 if i == 0 else 0)
+            info += struct.pack('<BBLLL18s', f1, 3, 0x1234 + i, 64 + i, DECK_BASES[i], DECK_NAMES[i])
+        else:
+            info += bytes(32)
+    segs = [(DECK_SEGS[0][0], info)]
+    for (b, n) in DECK_SEGS[1:]:
+        segs.append((b, bytearray(rng.randrange(256) for _ in range(n))))
+    return SegImage(segs)
 
 
 # --------------------------------------------------------------------------- device side
@@ -32,6 +106,10 @@ class MemFaults(sd.Faults):
             if self.f.get('drop_by') == 'sender' and self.f.get('drop_after') == self.mem_up and not self.dropped:
                 self.dropped = True
                 return 'fail_sender'
+            if self.f.get('drop_by') == 'driver_at_send' and self.f.get('drop_after') == self.mem_up and not self.dropped:
+                # the driver's own thread reports the failure at the moment the request is handed over
+                self.dropped = True
+                return 'fail_driver'
         return 'ok'
 
     def downlink(self, dev, n, pk):
@@ -53,18 +131,31 @@ class MemFaults(sd.Faults):
         return acts
 
 
+def err_status(faults, k):
+    """status byte of the k-th memory request of a scenario: 0, or the error the fault script asks for"""
+    if k in faults.get('err', ()):
+        return int(faults.get('st', {}).get(str(k), 5))      # default EIO
+    return 0
+
+
 class LoggedMem(sv.MemoryService):
-    def __init__(self, mems, world_ref, errs):
+    def __init__(self, mems, world_ref, faults):
         super().__init__(mems)
         self.world_ref = world_ref
-        self.errs = set(errs)
+        self.faults = faults
         self.k = 0
 
     def handle(self, pk):
         if pk.channel in (1, 2):
             self.k += 1
-            k = self.k
-            self.status = (lambda kind, mid, addr, n: 5) if k in self.errs else None   # EIO
+            st = err_status(self.faults, self.k)
+            d = bytes(pk.data)
+            if st == 0 and len(d) >= 5 and d[0] < len(self.mems) and isinstance(self.mems[d[0]]['image'], SegImage):
+                a = int.from_bytes(d[1:5], 'little')
+                n = d[5] if pk.channel == 1 and len(d) >= 6 else len(d) - 5
+                if self.mems[d[0]]['image'].seg(a, n) is None:
+                    st = 22               # no such address
+            self.status = (lambda kind, mid, addr, n, st=st: st) if st else None
         out = super().handle(pk)
         if pk.channel in (1, 2) and out:
             d = bytes(pk.data)
@@ -79,11 +170,25 @@ class LoggedMem(sv.MemoryService):
 
 
 # --------------------------------------------------------------------------- one execution
+class UserLastPolicy:
+    """Library, driver and device threads before the application's threads: whatever the
+    application has handed over is processed as far as it goes before the application runs on
+    (a reply that is already in the link's queue is handled before send_packet returns)."""
+
+    def choose(self, sched, runnable, timed):
+        if not runnable:
+            return vsched.TICK
+        lib = [r for r in runnable if not r.name.startswith('user')]
+        return (lib or runnable)[0]
+
+
 def make_policy(spec, est=400):
     kind, seed = spec
     rng = random.Random(seed)
     if kind == 'fifo':
         return vsched.FifoPolicy()
+    if kind == 'userlast':
+        return UserLastPolicy()
     if kind == 'random':
         return vsched.RandomPolicy(rng)
     return vsched.PCTPolicy(rng, depth=3, est_steps=est)
@@ -93,26 +198,80 @@ def execute(sc, mutant=None):
     """Run one scenario; returns the trace dict for MemProtoTrace (plus 'detail' for reports)."""
     import cflib.crazyflie as cfm
     rng = random.Random(sc['img_seed'])
+    deckmode = bool(sc.get('deck'))
+    nmem = NMEM + (1 if deckmode else 0)
     images = [bytearray(rng.randrange(256) for _ in range(MEM_SIZE)) for _ in range(NMEM)]
-    img0 = [list(i) for i in images]
-    state = {'rid': 0, 'cur': {}, 'dropped': 0, 'connected': 0, 'notes': 0}
-    with vsched.scheduler(make_policy(sc['policy']), site_info=True, max_steps=60000) as s:
+    if deckmode:
+        images.append(deck_image(rng))
+
+    def dense(i):
+        return i.dense() if isinstance(i, SegImage) else list(i)
+
+    def layout(i):
+        return i.layout() if isinstance(i, SegImage) else [{'base': 0, 'len': len(i), 'off': 0}]
+    img0 = [dense(i) for i in images]
+    segs = [layout(i) for i in images]
+    state = {'rid': 0, 'cur': {}, 'deck': {}, 'dropped': 0, 'connected': 0, 'notes': 0, 'drefused': 0}
+    with vsched.scheduler(make_policy(sc['policy']), site_info=True, max_steps=80000) as s:
         w = sd.set_world(sd.World())
-        mems = [{'type': TYPE_GENERIC, 'size': MEM_SIZE, 'image': images[i]} for i in range(NMEM)]
+        mems = [{'type': TYPE_DECK if isinstance(images[i], SegImage) else TYPE_GENERIC,
+                 'size': len(images[i]), 'image': images[i]} for i in range(nmem)]
         dev = sv.standard_device(mems=[], mode=sc['mode'])
-        dev.services[sv.PORT_MEM] = LoggedMem(mems, lambda: w, sc['faults'].get('err', ()))
+        dev.services[sv.PORT_MEM] = LoggedMem(mems, lambda: w, sc['faults'])
         dev.faults = MemFaults(sc['faults'])
         dev.tagger = lambda: state['cur'].get(s.current().name if s.current() else None, 0)
         w.add('0', dev)
         cf = cfm.Crazyflie(rw_cache=None)
         if mutant:
             mutant(cf)
+        if sc.get('sent_yield'):
+            # an application callback on packet_sent (the console, log and param clients have one): a
+            # point after the link has taken the packet, before send_packet returns, where other
+            # threads run
+            cf.packet_sent.add_callback(lambda pk: vtime.sleep(0))
+
+        # Every call of Memory.read / Memory.write is logged where it enters and leaves the library,
+        # whoever makes it: the application directly (via "raw") or a DeckMemoryManager on behalf of
+        # a deck client request (via "deck").
+        lib_read, lib_write = cf.mem.read, cf.mem.write
+
+        def me():
+            return s.current().name if s.current() else None
+
+        def logged(kind, fn, memory, addr, length, data, flush):
+            th = me()
+            state['rid'] += 1
+            rid = state['rid']
+            dctx = state['deck'].get(th)
+            if dctx is not None:
+                dctx.setdefault('rids', []).append(rid)
+            w.event(e='cs', rid=rid, kind=kind, m=memory.id + 1, addr=addr, len=length,
+                    data=list(data) if data is not None else [], flush=bool(flush),
+                    via='deck' if dctx is not None else 'raw')
+            prev = state['cur'].get(th, 0)
+            state['cur'][th] = rid
+            try:
+                ret = fn()
+            finally:
+                state['cur'][th] = prev
+            w.event(e='ret', rid=rid, ret=bool(ret))
+            return ret
+
+        def logged_read(memory, addr, length):
+            return logged('read', lambda: lib_read(memory, addr, length), memory, addr, length, None, False)
+
+        def logged_write(memory, addr, data, flush_queue=False, progress_cb=None):
+            return logged('write', lambda: lib_write(memory, addr, data, flush_queue, progress_cb),
+                          memory, addr, len(data), data, flush_queue)
+        cf.mem.read = logged_read
+        cf.mem.write = logged_write
 
         # An application may start a new request from inside a completion callback (the library
         # says so: "call callbacks after the lock has been released to allow for new writes to be
         # initiated from the callback").  sc['reenter'] = {'on': kind of notification, 'op': request}
         # makes the first such notification do that.
         reenter = dict(sc.get('reenter') or {})
+        dreenter = dict(sc.get('dreenter') or {})
 
         def note(k, mem, addr, data):
             w.event(e='note', k=k, m=mem.id + 1, addr=addr, data=list(data))
@@ -133,6 +292,7 @@ def execute(sc, mutant=None):
 
         def on_disc(uri):
             state['dropped'] += 1
+            state.pop('decks', None)
             w.event(e='drop')
             hook_mem_callbacks()           # Memory replaces its Caller objects on disconnect
         cf.disconnected.add_callback(on_disc)
@@ -140,31 +300,108 @@ def execute(sc, mutant=None):
         hook_mem_callbacks()
 
         def api(kind, m, addr, length, data=None, flush=False):
-            me = s.current().name
-            state['rid'] += 1
-            rid = state['rid']
-            w.event(e='cs', rid=rid, kind=kind, m=m + 1, addr=addr, len=length,
-                    data=list(data) if data is not None else [], flush=bool(flush))
-            state['cur'][me] = rid
-            try:
-                mem = state['mems'][m]
-                if kind == 'read':
-                    ret = cf.mem.read(mem, addr, length)
-                else:
-                    ret = cf.mem.write(mem, addr, data, flush_queue=flush)
-            finally:
-                state['cur'][me] = 0
-            w.event(e='ret', rid=rid, ret=bool(ret))
-            return rid
+            mem = state['mems'][m]
+            if kind == 'read':
+                cf.mem.read(mem, addr, length)
+            else:
+                cf.mem.write(mem, addr, data, flush_queue=flush)
 
-        def outstanding():
-            n = 0
-            for e in w.log:
-                if e.get('e') == 'ret' and e['ret']:
-                    n += 1
-                elif e.get('e') == 'note':
-                    n -= 1
-            return n
+        # ---- the deck client: requests go through DeckMemoryManager / DeckMemory; the client's own
+        # callbacks (or the return of a blocking call) are its notifications
+        def dnote(dctx, k):
+            rids = dctx.get('rids') or []
+            if rids:
+                w.event(e='dnote', rid=rids[-1], k=k)
+            else:
+                state['stray_dnote'] = state.get('stray_dnote', 0) + 1
+            dctx['done'] = k
+            key = '%s_%s' % (dctx['kind'], k)
+            if dreenter.get('on') == key:
+                op = dreenter.pop('op')
+                dreenter.clear()
+                deck_op(op, nested=True)
+
+        def deck_call(kind, fn, nested=False):
+            """fn(ok_cb, fail_cb) makes the library call; returns the context (rids of the raw
+            requests it made, 'refused' if the library refused it with its 'ongoing'/'not ready'
+            exception, 'done' once notified).  The application's main line goes on after a refusal;
+            a completion callback does not catch it (it unwinds into the library, as it would from
+            any ordinary application callback)."""
+            th = me()
+            dctx = {'kind': kind}
+            prev = state['deck'].get(th)
+            state['deck'][th] = dctx
+            try:
+                res = fn(lambda *a: dnote(dctx, 'ok'), lambda *a: dnote(dctx, 'fail'))
+                dctx['result'] = res
+            except Exception as e:
+                if type(e) is not Exception:
+                    raise
+                dctx['refused'] = str(e)
+                state['drefused'] += 1
+                if nested:
+                    raise
+            finally:
+                state['deck'][th] = prev
+            return dctx
+
+        def deck_op(op, drng=None, nested=False):
+            if cf.link is None:
+                return None
+            kind = op[0]
+            if kind == 'dq':
+                mgrs = cf.mem.get_mems(TYPE_DECK)
+                if not mgrs:
+                    return None
+                mgr = mgrs[0]
+
+                def got(decks, cb):
+                    state['decks'] = decks
+                    cb()
+                return deck_call('dq', lambda ok, fail: mgr.query_decks(lambda decks: got(decks, ok), lambda msg: fail()), nested)
+            decks = state.get('decks')
+            if not decks or op[1] not in decks:
+                return None
+            deck = decks[op[1]]
+            if kind == 'dw':
+                _k, _d, off, ln, how = op[:5]
+                data = bytes((drng or random.Random(off * 131 + ln)).randrange(256) for _ in range(ln))
+                if how == 'cb':
+                    return deck_call('dw', lambda ok, fail: deck.write(off, data, ok, fail), nested)
+                if how == 'prog':
+                    return deck_call('dw', lambda ok, fail: deck.write(off, data, ok, fail, progress_cb=lambda msg, pct: None))
+                tries = 1 + (op[5] if len(op) > 5 else 0)
+                while tries > 0:                 # blocking call; the application retries a failed write
+                    tries -= 1
+                    dctx = deck_call('dw', lambda ok, fail: deck.write_sync(off, data))
+                    if 'refused' not in dctx:
+                        dnote(dctx, 'ok' if dctx.get('result') else 'fail')
+                    if dctx.get('result') or cf.link is None:
+                        break
+                return dctx
+            if kind == 'dr':
+                _k, _d, off, ln, how = op[:5]
+                if how == 'cb':
+                    return deck_call('dr', lambda ok, fail: deck.read(off, ln, ok, fail), nested)
+                dctx = deck_call('dr', lambda ok, fail: deck.read_sync(off, ln))
+                if 'refused' not in dctx:
+                    dnote(dctx, 'ok' if dctx.get('result') is not None else 'fail')
+                return dctx
+            if kind == 'dc':
+                call = {'fw': deck.reset_to_fw, 'bl': deck.reset_to_bootloader,
+                        'size': lambda: deck.set_fw_new_flash_size(0x1234)}[op[2]]
+                dctx = deck_call('dc', lambda ok, fail: call())
+                if 'refused' not in dctx:
+                    dnote(dctx, 'done')          # these calls return no result
+                return dctx
+            raise common.MachineryError('unknown deck operation %r' % (op,))
+
+        def wait_for(pred, secs=12.0):
+            t_end = s.now + secs
+            while not pred() and s.now < t_end:
+                vtime.sleep(0.25)
+                dev.flush_held()
+            return pred()
 
         def connect(attempt):
             c0 = state['connected']
@@ -172,7 +409,7 @@ def execute(sc, mutant=None):
             t_end = s.now + 20
             while state['connected'] == c0 and s.now < t_end:
                 vtime.sleep(0.05)
-            state['mems'] = [cf.mem.get_mem(i) for i in range(NMEM)]
+            state['mems'] = [cf.mem.get_mem(i) for i in range(nmem)]
             return state['connected'] > c0
 
         res = {'epilogue': False}
@@ -192,34 +429,51 @@ def execute(sc, mutant=None):
                     api('write', op[1], op[2], op[3], data, op[4])
                 elif op[0] == 'sleep':
                     vtime.sleep(op[1])
+                elif op[0] == 'dq':
+                    d = deck_op(op)
+                    if d is not None and 'refused' not in d:
+                        wait_for(lambda: 'done' in d or state['dropped'])
+                else:
+                    deck_op(op, drng)
             # let everything in flight finish
             for _ in range(40):
                 vtime.sleep(0.25)
-                if sc['mode'] == 'sync' or True:
-                    dev.flush_held()
+                dev.flush_held()
             if state['dropped']:
                 if not connect(2):
                     res['reconnect_failed'] = True
                     return
             # epilogue (fault-free): the subsystem must still serve requests ("nothing left behind")
-            dev.services[sv.PORT_MEM].errs = set()
+            dev.services[sv.PORT_MEM].faults = {}
             dev.faults.f = {}
             dev.flush_held()
-            n0 = sum(1 for e in w.log if e.get('e') == 'note' and e['k'] in ('read_ok', 'write_ok'))
+
+            def oks():
+                return sum(1 for e in w.log if (e.get('e') == 'note' and e['k'] in ('read_ok', 'write_ok')) or
+                           (e.get('e') == 'dnote' and e['k'] == 'ok'))
+            n0 = oks()
             want = 0
             for m in range(NMEM):
                 api('read', m, 1, 3)
                 api('write', m, MEM_SIZE - 4, 2, bytearray([m + 1, 7]), False)
                 want += 2
-            for _ in range(40):
-                vtime.sleep(0.25)
-                got = sum(1 for e in w.log if e.get('e') == 'note' and e['k'] in ('read_ok', 'write_ok')) - n0
-                if got >= want:
-                    break
-            res['epilogue'] = got >= want
+            wait_for(lambda: oks() - n0 >= want, 10.0)
+            if deckmode:
+                # the deck client too: with the objects it already has if the session is the same,
+                # after a new query if the link was lost in between
+                if 'decks' not in state:
+                    d = deck_op(('dq',))
+                    want += 2                    # raw read_ok + the client's callback
+                    wait_for(lambda: oks() - n0 >= want, 10.0)
+                for op in (('dw',) + DECK_EPI_W + ('cb',), ('dr',) + DECK_EPI_R + ('cb',)):
+                    deck_op(op)
+                    want += 2
+                    wait_for(lambda: oks() - n0 >= want, 10.0)
+            res['epilogue'] = oks() - n0 >= want
+            res['drefused'] = state['drefused']
 
         u = s.spawn(user, 'user')
-        why = s.run(until=lambda: u.finished, horizon=200.0)
+        why = s.run(until=lambda: u.finished, horizon=300.0)
         rep = s.report()
         dead = [t for t in rep if t['status'] == 'dead']
         blocked_user = not u.finished
@@ -235,16 +489,18 @@ def execute(sc, mutant=None):
         k = e.get('e')
         if k == 'cs':
             ev.append({'e': 'cs', 'rid': e['rid'], 'kind': e['kind'], 'm': e['m'], 'addr': e['addr'],
-                       'len': e['len'], 'data': e['data'], 'flush': e['flush']})
+                       'len': e['len'], 'data': e['data'], 'flush': e['flush'], 'via': e['via']})
         elif k == 'ret':
             ev.append({'e': 'ret', 'rid': e['rid'], 'ret': e['ret']})
-        elif k == 'up' and e.get('port') == sv.PORT_MEM and e.get('chan') == 1 and e.get('hint'):
-            ev.append({'e': 'tx', 'm': e['data'][0] + 1, 'hint': e['hint']})
+        elif k == 'up' and e.get('port') == sv.PORT_MEM and e.get('chan') in (1, 2) and e.get('hint'):
+            ev.append({'e': 'tx', 'k': 'r' if e['chan'] == 1 else 'w', 'm': e['data'][0] + 1, 'hint': e['hint']})
         elif k == 'mem_up':
             ev.append({'e': 'up', 'k': e['k'], 'm': e['m'], 'addr': e['addr'], 'len': e['len'],
                        'data': e['data'], 'st': e['st'], 'hint': e['hint']})
         elif k == 'note':
             ev.append({'e': 'note', 'k': e['k'], 'm': e['m'], 'addr': e['addr'], 'data': e['data']})
+        elif k == 'dnote':
+            ev.append({'e': 'dnote', 'rid': e['rid'], 'k': e['k']})
         elif k == 'drop':
             ev.append({'e': 'drop'})
         elif k == 'link_error':
@@ -252,8 +508,8 @@ def execute(sc, mutant=None):
         elif k == 'down' and e.get('how') == 'dup' and e.get('port') == sv.PORT_MEM:
             hasdup = True
     ev.append({'e': 'end', 'lock': lock, 'pending': pending, 'epilogue': bool(res['epilogue']),
-               'dead': bool(dead), 'hung': blocked_user, 'images': [list(i) for i in images]})
-    return {'mems': NMEM, 'img0': img0, 'hasdup': hasdup, 'ev': ev,
+               'dead': bool(dead), 'hung': blocked_user, 'images': [dense(i) for i in images]})
+    return {'mems': nmem, 'img0': img0, 'segs': segs, 'hasdup': hasdup, 'ev': ev,
             'detail': {'why': why, 'dead': [t.get('traceback', '')[-600:] for t in dead],
                        'blocked_user': blocked_user, 'res': res,
                        'threads': [(t['name'], t['status'], t.get('site')) for t in rep if t['status'] != 'finished']}}
@@ -264,16 +520,36 @@ LENS_R = [0, 1, 19, 20, 21, 39, 40, 41, 60, 61]
 LENS_W = [0, 1, 24, 25, 26, 49, 50, 51, 75, 76]
 
 
-def _place_writes(rng, lens):
-    """disjoint, distinct address ranges inside [0, MEM_SIZE-8) for the writes of one memory"""
+def _place_writes(rng, lens, limit=MEM_SIZE - 8):
+    """disjoint, distinct address ranges inside [0, limit) for the writes of one memory"""
     out = []
     pos = rng.randrange(0, 3)
     for ln in lens:
-        if pos + max(ln, 1) > MEM_SIZE - 8:
+        if pos + max(ln, 1) > limit:
             break
         out.append((pos, ln))
         pos += max(ln, 1) + rng.randrange(0, 3)
     return out
+
+
+def gen_faults(rng, kind, nmax=9):
+    faults = {}
+    if kind in ('dup', 'mixed'):
+        faults['dup'] = sorted(set(rng.randrange(1, nmax) for _ in range(rng.randint(1, 2))))
+    if kind in ('err', 'mixed'):
+        faults['err'] = sorted(set(rng.randrange(1, nmax) for _ in range(rng.randint(1, 2))))
+        # any status byte: mostly the boundary values, sometimes any
+        faults['st'] = {str(k): (rng.choice(STATUSES) if rng.random() < 0.7 else rng.randrange(1, 256)) for k in faults['err']}
+    if kind in ('hold', 'mixed') and rng.random() < 0.7:
+        faults['hold'] = {str(rng.randrange(1, nmax - 2)): rng.randint(1, 2)}
+    if kind in ('drop', 'mixed') and (kind == 'drop' or rng.random() < 0.3):
+        faults['drop_after'] = rng.randrange(1, nmax - 1)
+        faults['drop_by'] = rng.choice(['driver', 'sender', 'driver_at_send'])
+    return faults
+
+
+def gen_policy(rng):
+    return (rng.choice(['fifo', 'random', 'pct', 'userlast']), rng.randrange(1 << 30))
 
 
 def gen_scenario(rng, tier, kind):
@@ -299,19 +575,41 @@ def gen_scenario(rng, tier, kind):
         r = rng.random()
         if r < 0.3:
             out.append(('sleep', rng.choice([0.01, 0.3, 1.5])))
-    faults = {}
-    if kind in ('dup', 'mixed'):
-        faults['dup'] = sorted(set(rng.randrange(1, 9) for _ in range(rng.randint(1, 2))))
-    if kind in ('err', 'mixed'):
-        faults['err'] = sorted(set(rng.randrange(1, 9) for _ in range(rng.randint(1, 2))))
-    if kind in ('hold', 'mixed') and rng.random() < 0.7:
-        faults['hold'] = {str(rng.randrange(1, 7)): rng.randint(1, 2)}
-    if kind in ('drop', 'mixed') and (kind == 'drop' or rng.random() < 0.3):
-        faults['drop_after'] = rng.randrange(1, 8)
-        faults['drop_by'] = rng.choice(['driver', 'sender'])
-    return {'ops': out, 'faults': faults, 'mode': rng.choice(['sync', 'thread']),
-            'policy': (rng.choice(['fifo', 'random', 'pct']), rng.randrange(1 << 30)),
+    return {'ops': out, 'faults': gen_faults(rng, kind), 'mode': rng.choice(['sync', 'thread']),
+            'policy': gen_policy(rng), 'sent_yield': rng.random() < 0.5,
             'img_seed': rng.randrange(1 << 30)}
+
+
+def gen_deck_scenario(rng, tier, kind):
+    """the deck client (query, reads, writes, blocking writes with a retry, commands) mixed with plain
+    requests to the other memories, under the same faults"""
+    ops = [('dq',)]
+    wl = [rng.choice([0, 1, 24, 25, 26, 50, 51]) for _ in range(rng.randint(1, 3))]
+    dws = [('dw', 0, a, ln, rng.choice(['cb', 'cb', 'sync', 'prog']) if ln else rng.choice(['cb', 'sync']))
+           for (a, ln) in _place_writes(rng, wl, limit=150)]
+    dws = [op + ((1,) if op[4] == 'sync' else ()) for op in dws]
+    drs = [('dr', rng.choice([0, 1]), rng.randrange(0, 60), rng.choice([0, 1, 19, 20, 21, 40, 41]), rng.choice(['cb', 'cb', 'sync']))
+           for _ in range(rng.randint(0, 2))]
+    dcs = [('dc', rng.choice([0, 1]), rng.choice(['fw', 'bl', 'size']))] if rng.random() < 0.4 else []
+    raw = []
+    if rng.random() < 0.5:
+        raw.append(('write', 0, rng.randrange(0, 40), rng.choice([1, 25, 26]), False))
+    if rng.random() < 0.5:
+        raw.append(('read', 1, rng.randrange(0, 40), rng.choice([1, 20, 21])))
+    rest = dws + drs + dcs + raw
+    rng.shuffle(rest)
+    for op in rest:
+        ops.append(op)
+        # an asynchronous deck request is refused while the previous one of its kind is running:
+        # mostly the client waits, sometimes it does not
+        ops.append(('sleep', rng.choice([0.01, 1.0, 1.0, 2.0])))
+    faults = gen_faults(rng, kind, nmax=26)
+    sc = {'deck': True, 'ops': ops, 'faults': faults, 'mode': rng.choice(['sync', 'thread']),
+          'policy': gen_policy(rng), 'sent_yield': rng.random() < 0.5, 'img_seed': rng.randrange(1 << 30)}
+    if rng.random() < 0.4:
+        on = rng.choice(['dw_ok', 'dw_fail', 'dr_ok', 'dr_fail'])
+        sc['dreenter'] = {'on': on, 'op': rng.choice([('dw',) + DECK_RE_W + ('cb',), ('dr',) + DECK_RE_R + ('cb',)])}
+    return sc
 
 
 def reenter_scenarios():
@@ -326,8 +624,8 @@ def reenter_scenarios():
             base_w = [('write', 0, 2, 30, False), ('write', 0, 60, 3, False), ('sleep', 1.0)]
             base_r = [('read', 0, 2, 45), ('sleep', 1.0)]
             cases = [('write_ok', base_w, {}), ('read_ok', base_r, {}),
-                     ('write_fail', base_w, {'err': [1]}), ('write_fail', base_w, {'err': [2]}),
-                     ('read_fail', base_r, {'err': [2]}),
+                     ('write_fail', base_w, {'err': [1]}), ('write_fail', base_w, {'err': [2], 'st': {'2': 255}}),
+                     ('read_fail', base_r, {'err': [2], 'st': {'2': 133}}),
                      ('write_fail', base_w, {'drop_after': 1, 'drop_by': 'driver'}),
                      ('write_fail', base_w, {'drop_after': 2, 'drop_by': 'driver'}),
                      ('read_fail', base_r, {'drop_after': 1, 'drop_by': 'driver'}),
@@ -341,10 +639,105 @@ def reenter_scenarios():
     return out
 
 
+def status_scenarios():
+    """every error status byte 1..255, once for a read and once for a write (a handful per connection)"""
+    out = []
+    sts = list(range(1, 256))
+    for kind in ('read', 'write'):
+        for i in range(0, len(sts), 15):
+            part = sts[i:i + 15]
+            ops, faults = [], {'err': [], 'st': {}}
+            for j, st in enumerate(part):
+                if kind == 'read':
+                    ops += [('read', j % NMEM, 3 + j, 5), ('sleep', 0.3)]
+                else:
+                    ops += [('write', j % NMEM, 2 + 8 * j, 5, False), ('sleep', 0.3)]
+                faults['err'].append(j + 1)
+                faults['st'][str(j + 1)] = st
+            out.append({'ops': ops, 'faults': faults, 'mode': 'sync' if (i // 15) % 2 == 0 else 'thread',
+                        'policy': ('fifo', 0), 'img_seed': 500 + i})
+    return out
+
+
+def sendtime_scenarios():
+    """the moment a request's first message is handed to the link: (a) the link fails right then --
+    reported by the driver from inside send_packet, or by the driver's own thread -- for the k-th
+    memory message of a small history; (b) a device that answers at once (the reply is in the link's
+    queue before link.send_packet() returns) and an application callback on packet_sent as a yield
+    point, library threads first: the reply is handled before the calling thread goes on"""
+    out = []
+    hist = [('read', 0, 2, 45), ('sleep', 1.0), ('write', 1, 7, 30, False), ('sleep', 1.0), ('read', 1, 9, 3),
+            ('write', 0, 80, 2, False), ('sleep', 1.0)]
+    for k in range(1, 8):
+        for by in ('sender', 'driver_at_send'):
+            for pol in (('fifo', 0), ('userlast', 0), ('random', 300 + k)):
+                out.append({'ops': list(hist), 'faults': {'drop_after': k, 'drop_by': by}, 'mode': 'sync',
+                            'policy': pol, 'sent_yield': True, 'img_seed': 900 + k})
+    for ln in (0, 1, 20, 21, 45):
+        for mode in ('sync', 'thread'):
+            out.append({'ops': [('read', 0, 2, ln), ('sleep', 1.0), ('write', 0, 5, ln, False), ('sleep', 1.0),
+                                ('read', 1, 4, ln), ('read', 0, 6, 2), ('sleep', 1.0)],
+                        'faults': {}, 'mode': mode, 'policy': ('userlast', 0), 'sent_yield': True, 'img_seed': 950 + ln})
+    return out
+
+
+def deck_scenarios():
+    """the deck memory client: the query of the info table, reads and writes of every chunk boundary
+    through DeckMemory, blocking writes with a retry, commands; an error status / a link failure at
+    every message; callbacks that start the next request (a retry of the same write among them)"""
+    out = []
+    W = ('dw', 0, 0x20, 60, 'cb')
+    R = ('dr', 1, 8, 45, 'cb')
+    k = 0
+
+    def add(ops, faults=None, **kw):
+        nonlocal k
+        k += 1
+        sc = {'deck': True, 'ops': [('dq',)] + list(ops), 'faults': dict(faults or {}), 'mode': 'sync' if k % 2 else 'thread',
+              'policy': ('fifo', 0), 'img_seed': 3000 + k}
+        sc.update(kw)
+        out.append(sc)
+    S = ('sleep', 1.5)
+    add([W, S, R, S])
+    add([W, S, R, S], policy=('userlast', 0), sent_yield=True)
+    add([R, W, S, ('dc', 0, 'bl'), ('dc', 0, 'fw'), ('dc', 1, 'size'), ('dw', 2, 0, 4, 'cb'), S])
+    for ln in (0, 1, 25, 26, 50, 51):
+        add([('dw', 0, 3, ln, 'cb'), S, ('dw', 0, 70, ln, 'sync'), ('dw', 1, 9, ln, 'prog' if ln else 'cb'), S])
+    for ln in (0, 1, 20, 21, 40, 41):
+        add([('dr', 0, 3, ln, 'cb'), S, ('dr', 1, 70, ln, 'sync'), S])
+    # the query is memory messages 1..13; W is 14..16 when it comes first, R is 3 messages
+    for st in (5, 200):
+        for q in (1, 7, 13):
+            add([W, S], {'err': [q], 'st': {str(q): st}})
+        for c in (14, 15, 16):
+            f = {'err': [c], 'st': {str(c): st}}
+            add([W, S, R, S], f)
+            for nxt in (('dw', 0, 0x20, 60, 'cb'), ('dw',) + DECK_RE_W + ('cb',), ('dr',) + DECK_RE_R + ('cb',)):
+                add([W, S, R, S], f, dreenter={'on': 'dw_fail', 'op': nxt})
+            add([('dw', 0, 0x20, 60, 'sync', 1), R, S], f)
+            add([('dw', 0, 0x20, 60, 'sync', 1), R, S], f, policy=('random', 77 + c))
+            add([R, S, W, S], f, dreenter={'on': 'dr_fail', 'op': ('dr',) + DECK_RE_R + ('cb',)})
+            add([('dr', 1, 8, 45, 'sync'), W, S], f)
+        add([('dc', 0, 'bl'), ('dc', 0, 'fw'), W, S], {'err': [14], 'st': {'14': st}})
+    add([W, S, R, S], dreenter={'on': 'dw_ok', 'op': ('dw',) + DECK_RE_W + ('cb',)})
+    add([W, S, R, S], dreenter={'on': 'dw_ok', 'op': ('dr',) + DECK_RE_R + ('cb',)})
+    add([R, S, W, S], dreenter={'on': 'dr_ok', 'op': ('dr',) + DECK_RE_R + ('cb',)})
+    add([R, S, W, S], dreenter={'on': 'dr_ok', 'op': ('dw',) + DECK_RE_W + ('cb',)})
+    add([W, S, R, S], dreenter={'on': 'dq_ok', 'op': ('dw',) + DECK_RE_W + ('cb',)})
+    for by in ('driver', 'sender', 'driver_at_send'):
+        for c in (2, 14, 15, 17):
+            add([W, S, R, S], {'drop_after': c, 'drop_by': by})
+            add([('dw', 0, 0x20, 60, 'sync', 1), ('dr', 1, 8, 45, 'sync'), S], {'drop_after': c, 'drop_by': by})
+    for c in (14, 16):
+        add([W, S, R, S], {'dup': [c]})
+        add([W, S, R, S], {'hold': {str(c): 2}})
+    return out
+
+
 def systematic_scenarios():
     """Every chunk-boundary length for one read and one write, at two addresses, and the
     duplicated-final-ack family (dup of every k-th reply for a k-chunk write followed by idle)."""
-    out = reenter_scenarios()
+    out = reenter_scenarios() + status_scenarios() + sendtime_scenarios() + deck_scenarios()
     for ln in range(0, 62):
         out.append({'ops': [('read', 0, 3, ln)], 'faults': {}, 'mode': 'sync', 'policy': ('fifo', 0), 'img_seed': ln})
     for ln in range(0, 77):
@@ -357,14 +750,14 @@ def systematic_scenarios():
                             'mode': mode, 'policy': ('fifo', 0), 'img_seed': ln})
                 out.append({'ops': [('write', 0, 2, ln, False), ('write', 0, 90, 3, False), ('sleep', 1.0)],
                             'faults': {'dup': [k]}, 'mode': mode, 'policy': ('fifo', 0), 'img_seed': ln})
-                out.append({'ops': [('write', 0, 2, ln, False), ('sleep', 1.0)], 'faults': {'err': [k]},
+                out.append({'ops': [('write', 0, 2, ln, False), ('sleep', 1.0)], 'faults': {'err': [k], 'st': {str(k): STATUSES[(ln + k) % len(STATUSES)]}},
                             'mode': mode, 'policy': ('fifo', 0), 'img_seed': ln})
     for ln in (0, 1, 20, 21, 40, 41):
         nchunks = max(1, (ln + 19) // 20)
         for k in range(1, nchunks + 1):
             out.append({'ops': [('read', 0, 2, ln), ('sleep', 1.0)], 'faults': {'dup': [k]},
                         'mode': 'sync', 'policy': ('fifo', 0), 'img_seed': ln})
-            out.append({'ops': [('read', 0, 2, ln), ('sleep', 1.0)], 'faults': {'err': [k]},
+            out.append({'ops': [('read', 0, 2, ln), ('sleep', 1.0)], 'faults': {'err': [k], 'st': {str(k): STATUSES[(ln + k + 5) % len(STATUSES)]}},
                         'mode': 'sync', 'policy': ('fifo', 0), 'img_seed': ln})
             for by in ('driver', 'sender'):
                 out.append({'ops': [('read', 0, 2, ln), ('write', 1, 7, 30, False), ('sleep', 1.0)],
@@ -471,9 +864,92 @@ def _mut_wrong_continuation(cf):
     cf._undo = lambda: setattr(memmod._ReadRequest, '_request_new_chunk', orig_req)
 
 
-MUTANTS = {'read_chunk_21': _mut_read_chunk, 'write_done_early': _mut_write_pop_early,
-           'swallow_read_failure': _mut_swallow_read_fail, 'empty_queue_index': _mut_empty_queue_index,
-           'lifo_writes': _mut_lifo_writes, 'wrong_continuation': _mut_wrong_continuation}
+def _mut_errno_lookup(cf):
+    """the error branch of both reply handlers looks the status byte up in the host's errno table
+    before it pops the request (an unknown byte raises; for a write, with the lock held)"""
+    import errno
+    import struct
+    m = cf.mem
+    orig_r, orig_w = m._handle_chan_read, m._handle_chan_write
+
+    def patched_r(cmd, payload):
+        (_addr, status) = struct.unpack('<IB', payload[0:5])
+        if status != 0 and cmd in m._read_requests:
+            errno.errorcode[status]
+        return orig_r(cmd, payload)
+
+    def patched_w(cmd, payload):
+        (_addr, status) = struct.unpack('<IB', payload[0:5])
+        if status != 0 and len(m._write_requests.get(cmd, [])) > 0 and status not in errno.errorcode:
+            m._write_requests_lock.acquire()
+            errno.errorcode[status]
+        return orig_w(cmd, payload)
+    m._handle_chan_read = patched_r
+    m._handle_chan_write = patched_w
+
+
+def _mut_register_after_send(cf):
+    """Memory.read records the request after its first message has been handed to the link"""
+    from cflib.crazyflie import mem as memmod
+    m = cf.mem
+
+    def patched(memory, addr, length):
+        if memory.id in m._read_requests:
+            return False
+        rreq = memmod._ReadRequest(memory, addr, length, m.cf)
+        rreq.start()
+        m._read_requests[memory.id] = rreq
+        return True
+    m.read = patched
+
+
+def _mut_deck_call_before_clear(cf):
+    """DeckMemoryManager._write_failed: call the client's failure callback, then clear the record"""
+    from cflib.crazyflie.mem import deck_memory as dm
+    orig = dm.DeckMemoryManager._write_failed
+
+    def patched(self, mem, addr):
+        if mem.id == self.id:
+            if self._write_failed_cb is not None:
+                self._write_failed_cb(addr - self._read_base_address)
+            self._clear_write_cb()
+    dm.DeckMemoryManager._write_failed = patched
+    cf._undo = lambda: setattr(dm.DeckMemoryManager, '_write_failed', orig)
+
+
+def _mut_deck_swallow_read_failure(cf):
+    """DeckMemoryManager._new_data_failed: forget the read, tell nobody"""
+    from cflib.crazyflie.mem import deck_memory as dm
+    orig = dm.DeckMemoryManager._new_data_failed
+
+    def patched(self, mem, addr, data):
+        if mem.id == self.id:
+            self._clear_query_cb()
+            self._clear_read_cb()
+    dm.DeckMemoryManager._new_data_failed = patched
+    cf._undo = lambda: setattr(dm.DeckMemoryManager, '_new_data_failed', orig)
+
+
+def _old_families():
+    return systematic_scenarios()[len(reenter_scenarios()) + len(status_scenarios()) + len(sendtime_scenarios()) + len(deck_scenarios()):]
+
+
+def _sub_general(seed, tier):
+    return (reenter_scenarios()[::3] + _old_families()[::3] +
+            [gen_scenario(random.Random(seed + 1 + i), tier, KINDS[i % 6]) for i in range(100)])
+
+
+# name -> (in-memory mutant, the scenarios it is run on)
+MUTANTS = {'read_chunk_21': (_mut_read_chunk, _sub_general), 'write_done_early': (_mut_write_pop_early, _sub_general),
+           'swallow_read_failure': (_mut_swallow_read_fail, _sub_general),
+           'empty_queue_index': (_mut_empty_queue_index, _sub_general),
+           'lifo_writes': (_mut_lifo_writes, lambda seed, tier: [gen_scenario(random.Random(seed + 1 + i), tier, KINDS[i % 6]) for i in range(250)]),
+           'wrong_continuation': (_mut_wrong_continuation, _sub_general),
+           'errno_lookup': (_mut_errno_lookup, lambda seed, tier: status_scenarios()[::2] + deck_scenarios()[::5]),
+           'register_after_send': (_mut_register_after_send, lambda seed, tier: sendtime_scenarios()),
+           'deck_call_before_clear': (_mut_deck_call_before_clear, lambda seed, tier: deck_scenarios()[::2]),
+           'deck_swallow_read_failure': (_mut_deck_swallow_read_failure, lambda seed, tier: deck_scenarios()[::2])}
+KINDS = ['none', 'dup', 'err', 'hold', 'drop', 'mixed']
 
 
 def _exec_job(job):
@@ -482,7 +958,7 @@ def _exec_job(job):
 
     def install(cf):
         holder['cf'] = cf
-        MUTANTS[mutant](cf)
+        MUTANTS[mutant][0](cf)
     try:
         return execute(sc, install if mutant else None)
     finally:
@@ -538,6 +1014,24 @@ def signature(t, clause, at, sc):
         site = 'IndexError' if 'IndexError' in tb else ('KeyError' if 'KeyError' in tb else
                                                         ('ZeroDivision' if 'ZeroDivision' in tb else 'other'))
         return '%s/%s/%s' % (clause, '+'.join(kinds) or 'nofault', site)
+    if clause in ('DeckNotNotified', 'DeckNotifiedTwice', 'DeckNoteMismatch'):
+        # which kind of deck client request, and which notification of the raw request went with it
+        reqs, notes, dn = {}, {}, {}
+        for e in t['ev']:
+            if e['e'] == 'cs' and e['via'] == 'deck':
+                reqs[e['rid']] = ('query' if e['kind'] == 'read' and e['addr'] == 0 and e['len'] == 257 else e['kind'], e['m'], e['addr'])
+            elif e['e'] == 'dnote':
+                dn[e['rid']] = dn.get(e['rid'], 0) + 1
+        for e in t['ev']:
+            if e['e'] == 'note':
+                for rid, (kd, m, a) in reqs.items():
+                    if m == e['m'] and a == e['addr'] and kd[0] == ('w' if e['k'].startswith('write') else e['k'][0]) or \
+                            (kd == 'query' and m == e['m'] and a == e['addr'] and e['k'].startswith('read')):
+                        notes.setdefault(rid, e['k'])
+        want = (lambda r: dn.get(r, 0) == 0 and r in notes) if clause == 'DeckNotNotified' else \
+            (lambda r: dn.get(r, 0) > 1) if clause == 'DeckNotifiedTwice' else (lambda r: True)
+        cls = sorted({'%s-%s' % (reqs[r][0], notes.get(r, '?')) for r in reqs if want(r)})
+        return '%s/%s/%s' % (clause, '+'.join(cls[:2]) or '?', '+'.join(kinds) or 'nofault')
     return '%s/%s' % (clause, '+'.join(kinds) or 'nofault')
 
 
@@ -596,29 +1090,49 @@ def replay_behaviour(beh):
             cf.mem.mem_write_failed_cb.add_callback(lambda mem, addr: noted.setdefault(('w', addr), []).append('fail'))
         hook()
         cf.disconnected.add_callback(lambda uri: hook())
-        uid_map = {}
-        nreq = 0
+        class OneShot(sd.Faults):
+            """the link fails while the next memory message is being sent (reported by the sender)"""
+            armed = False
+
+            def uplink(self, dev_, n_, pk):
+                if self.armed and pk.port == sv.PORT_MEM and pk.channel in (1, 2):
+                    self.armed = False
+                    return 'fail_sender'
+                return 'ok'
+        shot = OneShot()
+        dev.faults = shot
+        STATUS = {1: 5, 2: 200}      # the model's abstract error statuses as bytes (an errno and none)
         for (label, st) in beh[1:]:
             name, args = tlc.parse_label(label)
             total += 1
             if name == 'URead':
-                m, a, n = args
+                m, a, n, sf = args
+                shot.armed = bool(sf)
                 u = s.spawn(lambda: cf.mem.read(cf.mem.get_mem(m), a * UNIT, n * UNIT), 'user')
                 s.run(until=lambda: u.finished, horizon=s.now + 5)
+                if sf:
+                    settle()
+                    inbox.clear()
+                    outbox.clear()
             elif name == 'UWrite':
-                m, a, n, f = args
+                m, a, n, f, sf = args
+                shot.armed = bool(sf)
                 nreq_here = len(st['req'])
                 # distinct start addresses per request so notifications identify it (model uses Addrs)
                 data = bytearray((nreq_here * 31 + i) & 0xFF for i in range(n * UNIT))
                 u = s.spawn(lambda: cf.mem.write(cf.mem.get_mem(m), a * UNIT, data, flush_queue=f), 'user')
                 s.run(until=lambda: u.finished, horizon=s.now + 5)
+                if sf:
+                    settle()
+                    inbox.clear()
+                    outbox.clear()
             elif name == 'Dev':
                 stt = args[0]
                 if not inbox:
                     first = first or (total, 'Dev: real inbox empty')
                     break
                 pk = inbox.pop(0)
-                memsvc.status = (lambda kind, mid, addr, nn: 5) if stt else None
+                memsvc.status = (lambda kind, mid, addr, nn: STATUS[stt]) if stt else None
                 reps = orig_handle(pk)
                 memsvc.status = None
                 # the uid of the new reply in the TLC state
@@ -682,7 +1196,10 @@ def main(tier, seed, replay=None):
         'firmware memory service semantics as in simdev.MemoryService (fw mem.c as remembered): reply = id, addr, status(, data)',
         'exactness clauses (ReadData/WriteData/tilings) are asserted for histories without duplicated replies; '
         'completion, exactly-once notification, write order and not-wedged under all faults (DESIGN 3.1(5a))',
-        'write requests of one scenario have disjoint address ranges per memory so that chunks/notifications identify their request',
+        'write requests of one scenario have disjoint address ranges per memory so that chunks/notifications identify their request '
+        '(exception: the repetition of a write that has already been notified, i.e. a retry)',
+        'the deck memory is laid out as the firmware does (info table at 0, command section at 0x1000, one window per deck from 0x10000000); '
+        'a request made through DeckMemoryManager/DeckMemory is complete when the client\'s own callback was called (or its blocking call returned)',
         'requests are only issued while the link is up; after a drop the harness reconnects before the epilogue',
     ]
     if replay:
@@ -694,12 +1211,19 @@ def main(tier, seed, replay=None):
                           {'event_index': at, 'detail': t['detail'], 'events': t['ev'][:60]}, rp)
         return out.finish()
 
-    # 1. design spec
-    cfg = 'MC_MemProto_%s.cfg' % tier
-    r = tlc.check('MC_MemProto.tla', cfg, coverage=(tier == 'thorough'), timeout=3000)
-    out.add_tlc(cfg, r)
-    rb = tlc.expect_violation('MC_MemProto.tla', 'MC_MemProto_bug.cfg', timeout=600)
-    out.sensitivity['spec:emptyQueueIndex'] = 'refuted (%s) after %d states' % (rb.violated, rb.distinct)
+    # 1. design spec: the exhaustive checks and the bug variants (each must be refuted) side by side
+    from concurrent.futures import ThreadPoolExecutor
+    cfgs = ['MC_MemProto_%s.cfg' % tier, 'MC_MemProto_deck_%s.cfg' % tier]
+    bugs = [('emptyQueueIndex', 'MC_MemProto_bug.cfg'), ('errnoLookup', 'MC_MemProto_bug_errno.cfg'),
+            ('registerAfterSend', 'MC_MemProto_bug_regafter.cfg'), ('deckCallBeforeClear', 'MC_MemProto_bug_deck.cfg')]
+    with ThreadPoolExecutor(max_workers=len(cfgs) + len(bugs)) as ex:
+        fc = [ex.submit(tlc.check, 'MC_MemProto.tla', c, coverage=(tier == 'thorough'), timeout=3000) for c in cfgs]
+        fb = [ex.submit(tlc.expect_violation, 'MC_MemProto.tla', c, timeout=900, workers=2, heap='2g') for (_n, c) in bugs]
+        for c, f in zip(cfgs, fc):
+            out.add_tlc(c, f.result())
+        for (n, _c), f in zip(bugs, fb):
+            rb = f.result()
+            out.sensitivity['spec:' + n] = 'refuted (%s) after %d states' % (rb.violated, rb.distinct)
 
     # 2. spec -> code
     nsim = 150 if tier == 'quick' else 1500
@@ -715,10 +1239,13 @@ def main(tier, seed, replay=None):
 
     # 3. code -> spec
     scs = systematic_scenarios()
-    kinds = ['none', 'dup', 'err', 'hold', 'drop', 'mixed']
-    nrand = 1200 if tier == 'quick' else 20000
+    nsys = len(scs)
+    nrand = 900 if tier == 'quick' else 15000
+    ndeck = 300 if tier == 'quick' else 5000
     for i in range(nrand):
-        scs.append(gen_scenario(rng, tier, kinds[i % len(kinds)]))
+        scs.append(gen_scenario(rng, tier, KINDS[i % len(KINDS)]))
+    for i in range(ndeck):
+        scs.append(gen_deck_scenario(rng, tier, KINDS[i % len(KINDS)]))
     traces = run_scenarios(scs)
     bad = judge(out, traces, 'real code')
     for (t, clause, at) in bad:
@@ -728,19 +1255,23 @@ def main(tier, seed, replay=None):
         out.violation(signature(t, clause, at, sc), clause,
                       {'event_index': at, 'detail': t['detail'], 'events': t['ev'][:60]}, {'scenario': sc})
     out.evaluations = len(traces)
-    out.distinct = len({json.dumps([e for e in t['ev'] if e['e'] in ('cs', 'up', 'note', 'drop')], sort_keys=True) for t in traces})
-    out.rule = ('scenario = (operation list with chunk-boundary lengths, fault script over the n-th memory reply: dup/hold/error/drop by driver|sender, '
-                'device mode sync|thread, schedule policy fifo|random|PCT); systematic part: every read length 0..61, every write length 0..76, '
-                'dup/err/drop at every chunk; distinct = distinct observable histories')
+    out.distinct = len({json.dumps([e for e in t['ev'] if e['e'] in ('cs', 'up', 'note', 'dnote', 'drop')], sort_keys=True) for t in traces})
+    out.rule = ('scenario = (operation list with chunk-boundary lengths -- plain reads/writes, and in deck scenarios the DeckMemoryManager client: '
+                'query, read, write, blocking write with retry, commands --, fault script over the n-th memory message: dup/hold/error status '
+                '(any byte 1..255)/link failure reported by the driver thread after the reply | by the sender | by the driver thread at send time, '
+                'completion callbacks that start the next request, device mode sync|thread, optional yield point on packet_sent, '
+                'schedule policy fifo|random|PCT|library-first); systematic part (%d): every read length 0..61, every write length 0..76, '
+                'dup/err/drop at every chunk, every status byte for a read and for a write, failure at send time of every message of a small history, '
+                'the deck client families; random part: %d plain + %d deck; distinct = distinct observable histories' % (nsys, nrand, ndeck))
     out.samples = [{'scenario': scs[i], 'events': traces[i]['ev'][:10]} for i in (0, 70, len(scs) - 1)]
 
-    # 4. sensitivity
-    sub = systematic_scenarios()[::3] + [gen_scenario(random.Random(seed + 1 + i), tier, kinds[i % 6]) for i in range(200)]
+    # 4. sensitivity (after the violations have been recorded: a self-test never masks a verdict)
+    known = common.known_findings('C06')
     for name in sorted(MUTANTS):
+        sub = MUTANTS[name][1](seed, tier)
         mt = run_scenarios(sub, mutant=name)
         o2 = common.Outcome('C06', tier, seed)
         mbad = judge(o2, mt, 'mutant ' + name)
-        known = common.known_findings('C06')
         mbad = [(t, c, a) for (t, c, a) in mbad if signature(t, c, a, sub[t['id'] - 1]) not in known]
         out.sensitivity['mutant:' + name] = '%d of %d traces rejected beyond the known findings (%s)' % (
             len(mbad), len(mt), ','.join(sorted({c for (_t, c, _a) in mbad}))[:120])
